@@ -215,6 +215,28 @@ EXTRA['C17'] += ('; reply-code frames (every code x every error name) '
 EXTRA['C19'] += '; copy / deepcopy / pickle protocols 0-5'
 EXTRA['C11'] += '; int subclasses (IntEnum, IntFlag) on the ladder'
 EXTRA['C16'] += ('; every fresh interpreter under another PYTHONHASHSEED')
+for _k in ('C02', 'C05', 'C20'):
+    EXTRA[_k] += ('; frames nested as deep as the library\'s own encoder '
+                  'accepts')
+for _k in ('C01', 'C02', 'C03', 'C04', 'C10', 'C12'):
+    EXTRA[_k] += ('; re-entrant use of the codec (a logging handler and a '
+                  'tzinfo that encode while an encode is half done)')
+for _k in ('C06', 'C07', 'C18'):
+    EXTRA[_k] += ('; bytearray receive buffers for every frame without '
+                  'table entries (rule stated on the input), reused after '
+                  'decoding')
+EXTRA['C06'] += ('; every type octet before well-formed envelopes, runs of '
+                 'body frames on one channel, size fields with the top bit '
+                 'set')
+EXTRA['C08'] += '; long flag-word runs, big leaves under deep nests'
+EXTRA['C14'] += ('; catalogue snapshot after every step of the use phase; '
+                 'error handlers iterating half-decoded frames')
+EXTRA['C17'] += ('; catalogue snapshot after every step; broker reply texts '
+                 'with % and format fields; look-ups of unknown codes')
+EXTRA['C15'] += '; instants after 2106 up to and beyond year 9999 (encode)'
+EXTRA['C03'] += '; almost homogeneous arrays'
+EXTRA['C05'] += ('; data bytes equal to type tags; decoding under narrow '
+                 'decimal contexts')
 
 NOTE = ('Trusted base: CPython 3.12 sys.monitoring, struct/decimal/datetime; '
         'the hand-transcribed tables in vmon/refspec.py and the reference '
